@@ -14,6 +14,7 @@ func init() {
 	propertyRules["C10"] = []ruleFn{ruleEpochOwner, ruleTimerOwner, ruleInitArms, ruleRearm, ruleTimeoutNonNeg}
 	propertyExplain["C10"] = "Inductive argument whose obligations are all static: BlockIndex/ViewNumber are written only by the epoch writer (O-EPOCH); Timer.Reset is called only from one wrapper with (BlockIndex, ViewNumber) read at the call (O-TIMER-RESET, P-TIMER-EPOCH); in every initialiser every non-watch-only path from the epoch-writer call to a return passes the wrapper and no epoch write follows the last arming (M-INIT-ARMS); every admitted timeout path re-arms (M-REARM); durations handed to the wrapper are non-negative by construction where measured quantities are subtracted (A-TIMEOUT-NONNEG). Adequacy of the durations and that the injected timer fires are not decided."
 	propertyRules["C12"] = []ruleFn{ruleStaleIndex, ruleAnswer, ruleRejectSet, ruleRequestTx, ruleViewResetCover}
+	propertyRules["C12"] = append(propertyRules["C12"], ruleCompletionNoticed)
 	propertyExplain["C12"] = "STALE-MISSING: an index derived from MissingTransactions is never used on that slice after a call that may rewrite it; M-ANSWER: in the function recording a delivered transaction every path on which all transactions are present and the node is a non-watch-only backup ends in a PrepareResponse send or in the verifier's false result, whose summary must send a ChangeView; G-REJECT-SET: OnTransaction rejects a delivery only for the reasons the property allows; P-REQUEST: RequestTx receives the missing list. Interleavings with double deliveries and timing against the view timer are not decided."
 }
 
@@ -807,4 +808,140 @@ func (c *RC) armerRole(fn *FuncInfo) string {
 		return "sender:" + kinds[0]
 	}
 	return fn.Name
+}
+
+// M-COMPLETION-NOTICED (C12): the proposal's transactions can be completed by any function that stores into the
+// transaction table, not only by the one serving OnTransaction (a re-query of the pool, say). Whoever stores there must,
+// before control leaves the library, look whether the proposal is complete now — and if it is, have it verified and
+// answered like the recorder does. A completion nobody notices leaves the node with all transactions, no check of the
+// block and no answer; the next quorum of preparations makes it commit to a block it never verified.
+func ruleCompletionNoticed(c *RC) *RuleResult {
+	r := &RuleResult{Rule: "M-COMPLETION-NOTICED", Kind: "MUST", Doc: "every function that stores a transaction of the proposal is followed — in itself or in each of its callers — by a test whether the proposal is complete, and on completion by the block check (or the node is the primary / watch-only / has answered already)"}
+	ver := c.topVerifiers()
+	resp := c.senderOf("PrepareResponseType")
+	if len(ver) == 0 || len(resp) == 0 {
+		r.unresolved("verifier / response sender")
+		return r
+	}
+	builders := map[*FuncInfo]bool{}
+	for _, f := range c.senderOf("PrepareRequestType") {
+		builders[c.phaseRoot(f)] = true
+		builders[f] = true
+	}
+	// ... and what only they call: the primary fills in its own proposal from the pool it has itself verified
+	var onlyBuilders func(f *FuncInfo, depth int) bool
+	onlyBuilders = func(f *FuncInfo, depth int) bool {
+		if builders[f] {
+			return true
+		}
+		cs := c.A.callers[f]
+		if len(cs) == 0 || depth > 3 {
+			return false
+		}
+		for _, s := range cs {
+			if !onlyBuilders(s.Fn, depth+1) {
+				return false
+			}
+		}
+		return true
+	}
+	allTx := fAllTx().Atom
+	judge := func(e *State) string {
+		for _, f := range ver {
+			if e.Events["fn:"+f.Name] || e.Events["fn:"+f.Name+"=false"] {
+				return ""
+			}
+		}
+		for _, f := range resp {
+			if e.Events["fn:"+f.Name] {
+				return ""
+			}
+		}
+		for _, ini := range c.initialisers() {
+			if e.Events["fn:"+ini.Name] {
+				return "" // a new epoch: the table was cleared with it
+			}
+		}
+		if v, known := e.F.value(allTx); known && !v {
+			return "" // looked, and something is still missing
+		}
+		if isWatchOnlyState(e) {
+			return ""
+		}
+		if v, ok := e.F.value(mkAtom("eq", tMyIndex, tPrimaryIndex)); ok && v {
+			return ""
+		}
+		// answered (or moved on) already: own preparation / pre-commit / commit is there
+		for _, tbl := range []string{"ctx.PreparationPayloads", "ctx.PreCommitPayloads", "ctx.CommitPayloads"} {
+			if v, ok := e.F.value(mkAtom("nn", mkTerm(KIndex, "", fld(tbl, false), tMyIndex), nil)); ok && v {
+				return ""
+			}
+		}
+		if v, known := e.F.value(allTx); known && v {
+			return "the proposal is complete on path {" + strings.Join(e.Trail, "; ") + "} and the block is neither checked nor answered"
+		}
+		return "nobody looks whether the proposal is complete after the store, on path {" + strings.Join(e.Trail, "; ") + "}"
+	}
+	seen := map[*FuncInfo]bool{}
+	for _, ws := range c.writesTo("ctx.Transactions") {
+		elem := false // a store of one element (not the table being replaced or cleared)
+		for _, sn := range ws.Snaps {
+			if sn.Idx != nil {
+				elem = true
+			}
+		}
+		if c.inEpoch(ws.Fn) || !elem {
+			continue
+		}
+		root := c.phaseRoot(ws.Fn)
+		if seen[root] || onlyBuilders(root, 0) {
+			continue
+		}
+		seen[root] = true
+		r.Sites++
+		bad := ""
+		for _, e := range c.exitsOf(root) {
+			if e.Killed["ctx.Transactions"] == 0 {
+				continue // (a store inside a loop shows as a kill of the table, not as an event of the path)
+			}
+			if why := judge(e); why != "" {
+				bad = why
+			}
+		}
+		if bad == "" {
+			r.ok(root.Name + ": a stored transaction is followed by the completeness test, and completion by the block check")
+			continue
+		}
+		callers := c.A.callers[root]
+		if len(callers) == 0 {
+			r.fail(root.Name+"/completion-unnoticed", c.Prog.Pos(root.Decl), root.Name+" stores a transaction of the proposal; "+bad)
+			continue
+		}
+		seenG := map[*FuncInfo]bool{}
+		okAll := true
+		for _, cs := range callers {
+			g := c.phaseRoot(cs.Fn)
+			if seenG[g] || onlyBuilders(g, 0) {
+				continue
+			}
+			seenG[g] = true
+			for _, e := range c.exitsOf(g) {
+				if !e.Events["fn:"+root.Name] || e.Killed["ctx.Transactions"] == 0 {
+					continue
+				}
+				if why := judge(e); why != "" {
+					okAll = false
+					r.fail(g.Name+"/completion-unnoticed", c.Prog.Pos(cs.Node), fmt.Sprintf("%s (through %s) stores a transaction of the proposal; %s: a node that finds the last missing transaction this way holds a complete proposal it never verifies nor answers, and commits to it on the next quorum of preparations", g.Name, root.Name, why))
+					break
+				}
+			}
+		}
+		if okAll {
+			r.ok(root.Name + ": each caller tests completeness after the store and has a completed proposal checked")
+		}
+	}
+	if r.Sites == 0 {
+		r.unresolved("stores into the transaction table")
+	}
+	return r
 }
